@@ -4,7 +4,7 @@
    cs over every segmentation. *)
 From Coq Require Import List Arith NArith Bool Lia.
 Import ListNotations.
-Require Import FV.Gen.C07 FV.C07.Model FV.C07.Lemmas FV.C07.Utf8 FV.C07.Wellformed FV.C07.Codec FV.C07.Echo FV.C07.Refuted.
+Require Import FV.Gen.C07 FV.C07.Model FV.C07.Lemmas FV.C07.Utf8 FV.C07.Wellformed FV.C07.Codec FV.C07.Repl FV.C07.Echo.
 Local Open Scope N_scope.
 
 (* obligations on the facts regenerated from /repo (Gen/C07.v) *)
@@ -59,8 +59,8 @@ Proof. intros; apply split_lines_spec; apply Nat.lt_succ_diag_r. Qed.
      error name, or the reply action REQUEST2REPLY gives for a - the identification reply for the identification
      request *IDN? and for no other action (since the repair bfc762a) - with the specifier the handler's rule prescribes,
    - for an undecodable line: error_<f0> with specifier f1 and class InternalError, f0 f1 being the first fields of
-     the STRIPPED raw line read as latin-1 (since the repair b6f37c1; the open finding C07_refuted_latin1_echo lives
-     here, C07_decode_error_echo_partial is the positive statement) *)
+     the STRIPPED raw line read as UTF-8 with replacement (since the repairs b6f37c1, a2736c5; C07_decode_error_echo
+     states that these are action and specifier of the request) *)
 Theorem C07_one_reply_per_line : forall E st line,
   exists pre r c, answer E (nline st) line = (OReply pre r, c) /\
     output (process E st line) = output st ++ frames pre ++ [encode_frame r] /\
@@ -88,17 +88,48 @@ Theorem C07_decoded_request_fields : forall E line a s d,
   decode_msg E line = Some (a, s, d) -> request_fields line = Some (a, s).
 Proof. intros; eapply decode_msg_fields; eassumption. Qed.
 
-(* the error reply to an undecodable line names the action and echoes the specifier of the request - the fields
-   decode_msg would read - whatever white space surrounds the line (the exception for lines starting with white space is
-   gone with the repair b6f37c1).  Still partial: proved for lines that are ASCII after stripping, i.e. the decode error is
-   a JSON error; full statement: the same for every line whose action and specifier decode, which fails for non-ASCII
-   action/specifier (open finding latin1-echo, C07_refuted_latin1_echo); lines with ASCII action/specifier and invalid UTF-8
-   in the data part are covered by the direct oracle and the correspondence only *)
-Theorem C07_decode_error_echo_partial : forall E i line,
-  next_message E line = None -> ascii (bstrip line) = true ->
-  exists a s s' d, request_fields line = Some (a, s) /\
-    answer E i line = (OReply [] (ERRORPREFIX ++ a, s', d), None) /\ or_empty s' = or_empty s.
+(* the error reply to an undecodable line names the action and echoes the specifier of the request, whatever white
+   space surrounds the line and whatever bytes the data part holds (repairs b6f37c1, a2736c5; the former findings
+   leading-blank-decode-error and latin1-echo).  byte_fields line = bytes.split(b' ', 2) of the stripped line (padded);
+   full statement: for EVERY line that cannot be decoded and whose action and specifier fields are well-formed UTF-8 *)
+Theorem C07_decode_error_echo : forall E i line a s,
+  next_message E line = None ->
+  utf8_dec (nth 0%nat (byte_fields line) []) = Some a ->
+  utf8_dec (nth 1%nat (byte_fields line) []) = Some s ->
+  exists s' d, answer E i line = (OReply [] (ERRORPREFIX ++ a, s', d), None) /\ or_empty s' = s.
 Proof. intros; apply decode_error_echo; assumption. Qed.
+
+(* the same for a line that is text as a whole (the decode error is a JSON error), in terms of the fields decode_msg reads *)
+Theorem C07_decode_error_echo_text : forall E i line a s,
+  next_message E line = None -> request_fields line = Some (a, s) ->
+  exists s' d, answer E i line = (OReply [] (ERRORPREFIX ++ a, s', d), None) /\ or_empty s' = or_empty s.
+Proof. intros; apply decode_error_echo_text; assumption. Qed.
+
+(* and for fields that are NOT well-formed UTF-8: each ill-formed sequence is named by one U+FFFD (CPython's
+   errors='replace', Model.dec_one), the well-formed parts are unchanged *)
+Theorem C07_decode_error_echo_replaced : forall E i line,
+  next_message E line = None ->
+  exists s' d, answer E i line =
+      (OReply [] (ERRORPREFIX ++ utf8_dec_repl (nth 0%nat (byte_fields line) []), s', d), None) /\
+    or_empty s' = utf8_dec_repl (nth 1%nat (byte_fields line) []).
+Proof. intros; apply decode_error_echo_fields; assumption. Qed.
+
+(* reading with replacement: identity on well-formed UTF-8, always encodable text, commutes with cutting at blanks *)
+Theorem C07_replace_decoder : forall l,
+  (forall s, utf8_dec l = Some s -> utf8_dec_repl l = s) /\
+  forallb scalar (utf8_dec_repl l) = true /\
+  (forall n, splitsp n (utf8_dec_repl l) = map utf8_dec_repl (splitsp n l)).
+Proof. intro l. split; [intros s H; apply repl_strict; exact H|]. split; [apply repl_scalar|intro n; apply splitsp_repl]. Qed.
+
+(* non-vacuity: "r\xc3\xa9ad m\xc3\xb6 {bad" (was the witness of the finding latin1-echo) is answered error_réad mö;
+   " r\xe9ad x\xff {" (ill-formed) is answered error_r<U+FFFD>ad x<U+FFFD> *)
+Definition E0 : env := {| e_json := fun _ => None; e_line := fun _ => {| lo_h := HExc; lo_err := [34; 34] |} |}.
+Example C07_echo_demo :
+  fst (answer E0 0 [114; 195; 169; 97; 100; 32; 109; 195; 182; 32; 123; 98; 97; 100]) =
+    OReply [] (ERRORPREFIX ++ [114; 233; 97; 100], Some [109; 246], Some (err_data decode_error_name [34; 34])) /\
+  fst (answer E0 0 [32; 114; 233; 97; 100; 32; 120; 255; 32; 123]) =
+    OReply [] (ERRORPREFIX ++ [114; 65533; 97; 100], Some [120; 65533], Some (err_data decode_error_name [34; 34])).
+Proof. vm_compute. split; reflexivity. Qed.
 
 (* no input terminates the connection handler: after any history the loop is still running and the buffer
    holds no complete line *)
@@ -144,7 +175,7 @@ Example C07_demo :
   output (serve demoE [Chunk [112; 105]; Async ([117], Some [120], None); Chunk [110; 103; 32; 120; 10; 255; 10; 97]]) =
   [ [117; 32; 120; 10];
     [112; 111; 110; 103; 32; 120; 32; 49; 10];
-    ERRORPREFIX ++ [195; 191; 32; 32] ++ err_data decode_error_name [34; 34] ++ [10] ]
+    ERRORPREFIX ++ [239; 191; 189; 32; 32] ++ err_data decode_error_name [34; 34] ++ [10] ]
   /\ buf (serve demoE [Chunk [112; 105]; Async ([117], Some [120], None); Chunk [110; 103; 32; 120; 10; 255; 10; 97]]) = [97].
 Proof. vm_compute. split; reflexivity. Qed.
 
@@ -155,9 +186,11 @@ Print Assumptions C07_lines_of_spec.
 Print Assumptions C07_one_reply_per_line.
 Print Assumptions C07_internal_actions_rejected.
 Print Assumptions C07_decoded_request_fields.
-Print Assumptions C07_decode_error_echo_partial.
+Print Assumptions C07_decode_error_echo.
+Print Assumptions C07_decode_error_echo_text.
+Print Assumptions C07_decode_error_echo_replaced.
+Print Assumptions C07_replace_decoder.
 Print Assumptions C07_never_terminates.
 Print Assumptions C07_isolation.
 Print Assumptions C07_codec_inverse.
 Print Assumptions C07_lines_wellformed.
-Print Assumptions C07_refuted_latin1_echo.
